@@ -2,6 +2,9 @@
    layout   vmaj vmin eol objs frees size tpre -> hex of the file bytes
             eol: 0 LF, 1 CR, 2 CRLF;  objs: "nr:gen:xgen:hexbody;..." (gen: object header, xgen: xref table entry) ; frees: "nr:next:gen;..." (hex ints)
    check    hexfile -> stage number (0 = accepted)
+   xstream  hexfile size w0 w1 w2 index("start:count;..") hexdata -> strict decode of the inflated rows + check_rows
+   w2width  size offset -> /W[1] as writeXRefStream computes it
+   xcontent size offset rows("t:a:b;..") -> hex of the row bytes
    entry    eol a b free -> hex of the 20-byte line
    i64buf   i byteCount -> hex
    dec      n -> hex of the decimal text
@@ -32,6 +35,17 @@ let dispatch fn args = match fn, args with
         | [a; b; c; d] -> { e_nr = n_of_hex a; e_a = n_of_hex b; e_b = n_of_hex c; e_free = bool_of_str d }
         | _ -> failwith "row" in
       str_of_bool (check_rows (bytes_of_hex f) (n_of_hex size) (n_of_hex maxc) (List.map row (split ';' rows)))
+  | "xstream", [f; size; w0; w1; w2; index; data] ->
+      let pair s = match String.split_on_char ':' s with
+        | [a; b] -> (n_of_hex a, n_of_hex b) | _ -> failwith "index" in
+      let nat s = nat_of_int (int_of_string s) in
+      str_of_bool (check_xref_stream (bytes_of_hex f) (n_of_hex size) (nat w0) (nat w1) (nat w2)
+                     (List.map pair (split ';' index)) (bytes_of_hex data))
+  | "w2width", [size; off] -> string_of_int (int_of_nat (w2_width (n_of_hex size) (n_of_hex off)))
+  | "xcontent", [size; off; rows] ->
+      let row s = match String.split_on_char ':' s with
+        | [a; b; c] -> { x_typ = n_of_hex a; x_a = n_of_hex b; x_b = n_of_hex c } | _ -> failwith "xrow" in
+      hex_of_bytes (xref_stream_content (n_of_hex size) (n_of_hex off) (List.map row (split ';' rows)))
   | "entry", [eol; a; b; fr] ->
       hex_of_bytes (entry_line (eol_of eol) { e_nr = N0; e_a = n_of_hex a; e_b = n_of_hex b; e_free = bool_of_str fr })
   | "i64buf", [i; bc] -> hex_of_bytes (int64ToBuf (n_of_hex i) (nat_of_int (int_of_string bc)))
